@@ -12,6 +12,7 @@ import (
 	"fmt"
 	"net/http"
 	"os"
+	_ "perkeep.org/pkg/blobserver/cond"
 	"sort"
 	"strconv"
 	"strings"
@@ -120,11 +121,15 @@ type scenario struct {
 	Dest       string // "store" (harness store) | "index" (a real index.Index over a harness KV; "to.receive" then means the index's CommitBatch)
 	Steps      []step
 	Wake       bool // after the last fault: upload one more fresh blob (wakes the copy loop); false = rely on the loop's own timer
+	// ViaCond: uploads reach the source through a "cond" storage in front of it (the layout of perkeep's
+	// default server configuration, where /bs-and-maybe-also-index/ routes to /bs/) instead of being
+	// handed to the source directly.
+	ViaCond bool
 }
 
 func (sc *scenario) canonical() string {
 	var b strings.Builder
-	fmt.Fprintf(&b, "pool=%d mode=%s dest=%s wake=%v;", sc.CopierPool, sc.Mode, sc.Dest, sc.Wake)
+	fmt.Fprintf(&b, "pool=%d mode=%s dest=%s wake=%v viacond=%v;", sc.CopierPool, sc.Mode, sc.Dest, sc.Wake, sc.ViaCond)
 	for _, p := range sc.Pool {
 		b.WriteString(p.Ref.String())
 		b.WriteByte(',')
@@ -673,7 +678,20 @@ func (r *runner) upload(ep *epoch, b vgen.Blob, what string) {
 	wasErr := r.errored[key]
 	r.mu.Unlock()
 	_, inFrom := ep.from.RawGet(b.Ref)
-	sb, err := blobserver.Receive(ctx, ep.from, b.Ref, bytes.NewReader(b.Data))
+	var dst blobserver.BlobReceiver = ep.from
+	if r.sc.ViaCond {
+		ld := &loader{m: map[string]blobserver.Storage{"/from/": ep.from}}
+		cs, cerr := blobserver.CreateStorage("cond", ld, jsonconfig.Obj{
+			"write": map[string]any{"if": "isSchema", "then": "/from/", "else": "/from/"},
+			"read":  "/from/",
+		})
+		if cerr != nil {
+			r.violate("harness: cannot build the cond storage: %v", cerr)
+		}
+		dst = cs
+		r.label("upload/via-cond")
+	}
+	sb, err := blobserver.Receive(ctx, dst, b.Ref, bytes.NewReader(b.Data))
 	r.mu.Lock()
 	setFaults := r.hits[siteQSet+"/error"] + r.hits[siteQSet+"/applied-but-error"] - setFaultsBefore
 	r.mu.Unlock()
